@@ -508,13 +508,14 @@ class LSMTree(Entity):
         )
         self._memtable.set_clock(self._clock)
 
+        # Write latency for creating SSTable on disk (the immutable memtable
+        # keeps serving reads until the SSTable is installed)
+        pages = max(1, old_memtable.size // 16)
+        yield pages * self._sstable_write_latency
+
         # Flush to SSTable
         sstable = old_memtable.flush()
         self._sstable_bytes_written += sstable.size_bytes
-
-        # Write latency for creating SSTable on disk
-        pages = max(1, sstable.key_count // 16)
-        yield pages * self._sstable_write_latency
 
         # Add to L0
         self._levels[0].append(sstable)
